@@ -51,7 +51,8 @@ def convex_subset(rng: random.Random, nodes: list[dict]) -> list[str]:
     return [n for n in names if n in s]
 
 
-def nest(program: list[dict], gi: int, subset: list[str], rng: random.Random, wname: str, rename: bool, bind_inner: bool, dup_bind: bool = False) -> list[dict]:
+def nest(program: list[dict], gi: int, subset: list[str], rng: random.Random, wname: str, rename: bool, bind_inner: bool, dup_bind: bool = False,
+         bind_shared: bool = False) -> list[dict]:
     """Wrap `subset` of graph gi into a nested graph used as one node. Returns the new program."""
     prog = copy.deepcopy(program)
     g = prog[gi]
@@ -94,7 +95,7 @@ def nest(program: list[dict], gi: int, subset: list[str], rng: random.Random, wn
     if bind_inner:
         # bindings of parameters consumed exclusively inside the subset move onto the inner graph
         for k in list(bound_outer):
-            if k in iface_in and k not in used_outside:
+            if k in iface_in and (k not in used_outside or bind_shared):
                 v = bound_outer.pop(k)
                 inner_bound.append([("in_" + k) if rename else k, v])
     if dup_bind:
@@ -133,6 +134,16 @@ class C05(Prop):
             flat = c["program"]
             if len(flat[0]["nodes"]) < 2:
                 continue
+            # bind an external input that has several consumers (the wrapped group may then hold only some of them)
+            uses: dict[str, int] = {}
+            for nd in flat[0]["nodes"]:
+                for x in node_io(nd)[0]:
+                    uses[x] = uses.get(x, 0) + 1
+            shared_ext = [k for k, v in c["values"] if uses.get(k, 0) >= 2 and k not in dict(flat[0].get("bound", []))]
+            if shared_ext and rng.random() < 0.6:
+                k = rng.choice(shared_ext)
+                flat[0]["bound"] = list(flat[0].get("bound", [])) + [[k, dict(map(tuple, c["values"]))[k]]]
+                c["values"] = [kv for kv in c["values"] if kv[0] != k]
             nested = flat
             depth = rng.choice([1, 1, 2, 3])
             gi = 0
@@ -150,7 +161,8 @@ class C05(Prop):
                 if len(subset) == len(nodes) and d > 0:
                     break
                 cuts.append(subset)
-                nested = nest(nested, gi, subset, rng, f"w{d}", rename=rng.random() < 0.5, bind_inner=(mode := rng.choice(["none", "move", "dup", "dup"])) == "move", dup_bind=mode == "dup")
+                nested = nest(nested, gi, subset, rng, f"w{d}", rename=rng.random() < 0.5, bind_inner=(mode := rng.choice(["none", "move", "move-shared", "dup", "dup"])) in ("move", "move-shared"), dup_bind=mode == "dup",
+                              bind_shared=mode == "move-shared")
                 # next level: nest inside the inner graph just created (index gi stays the inner graph)
             for runner in ("sync", "async"):
                 yield {"flat": flat, "nested": nested, "values": c["values"], "runner": runner, "cuts": cuts}
